@@ -1,8 +1,9 @@
 package props
 
 import (
-	"os"
 	"fmt"
+	"os"
+	"regexp"
 	"testing"
 
 	"github.com/hashicorp/hcl/v2"
@@ -34,7 +35,8 @@ type dynGen struct {
 	outer  bool
 	feat   map[string]bool
 	// dynRate: 1-in-N block instances become dynamic
-	dynRate int
+	dynRate  int
+	usedIter bool // some content expression refers to an iterator
 	// clean: no deliberate ill-typing or spec violations, so that most cases decode without error
 	clean bool
 }
@@ -75,6 +77,7 @@ func (g *dynGen) expr(ty cty.Type) ast.Node {
 				g.outer = true
 			}
 			// keys are strings or numbers: the template always converts
+			g.usedIter = true
 			return ast.Template{Parts: []ast.TPart{ast.TLit{Text: "i:"}, ast.TInterp{X: ast.GetAttr{Obj: ast.Var{Name: it.name}, Name: "key"}}}}
 		}
 		if rapid.Bool().Draw(t, "clean_literal") {
@@ -92,9 +95,24 @@ func (g *dynGen) expr(ty cty.Type) ast.Node {
 		if it.name != g.iters[len(g.iters)-1].name {
 			g.outer = true
 		}
+		g.usedIter = true
 		return ast.GetAttr{Obj: ast.Var{Name: it.name}, Name: rapid.SampledFrom([]string{"value", "key"}).Draw(t, "field")}
 	}
 	return eg.Expr(ty)
+}
+
+// bodyExpr generates attribute values for bodies without dynamic blocks: expressions over
+// the scope with binders (for expressions, template for directives).
+func (g *dynGen) bodyExpr(ty cty.Type) ast.Node {
+	t := g.t
+	if rapid.IntRange(0, 3).Draw(t, "literal_attr") == 0 {
+		return literalOfType(t, ty)
+	}
+	ill := 10
+	if g.clean {
+		ill = 0
+	}
+	return gen.NewEG(t, g.scopeWithIters(), gen.ExprOpts{IllTyped: ill, Budget: 8, MaxDepth: 3, NoHeredoc: true}).Expr(ty)
 }
 
 func (g *dynGen) dyn(x *gen.SpecM, content func() *ast.Body) (ast.Item, bool) {
@@ -167,6 +185,22 @@ func (g *dynGen) dyn(x *gen.SpecM, content func() *ast.Body) (ast.Item, bool) {
 		d.Iterator = g.iters[rapid.IntRange(0, len(g.iters)-1).Draw(t, "shadowed")].name
 		g.feat["custom_iterator"] = true
 	}
+	if rapid.IntRange(0, 7).Draw(t, "iterator_named_like_variable") == 0 {
+		// the iterator takes the name of a root variable and for_each refers to that variable:
+		// for_each is evaluated outside the iterator's scope, so it means the root variable
+		var cands []string
+		for _, n := range g.sc.Names {
+			v, _ := g.sc.Vals[n].Unmark()
+			if plainIdent.MatchString(n) && !reservedName[n] && v.IsKnown() && !v.IsNull() && v.CanIterateElements() && (!single || v.LengthInt() == 1) {
+				cands = append(cands, n)
+			}
+		}
+		if len(cands) > 0 {
+			d.Iterator = rapid.SampledFrom(cands).Draw(t, "iterator_var")
+			d.ForEach = ast.Var{Name: d.Iterator}
+			g.feat["iterator_named_like_for_each_variable"] = true
+		}
+	}
 	name := d.Iterator
 	if name == "" {
 		name = d.Type
@@ -234,6 +268,9 @@ func relaxCounts(s *gen.SpecM) {
 		relaxCounts(e)
 	}
 }
+
+var plainIdent = regexp.MustCompile(`^[a-z][a-z0-9]*$`)
+var reservedName = map[string]bool{"for": true, "if": true, "in": true, "null": true, "true": true, "false": true}
 
 func staticSiblingOfDyn(b *ast.Body) bool {
 	types := map[string]int{}
